@@ -120,6 +120,13 @@ def check(ctx):
     ctx.ob("TYPE.projection-dimension", pcp, "the outer Projection is dropped only if column_union equals its RAW columns operand (scalar vs list decides Series vs DataFrame)", ok, "" if ok else f"compares with `{unparse(cmps[0].comparators[0]) if cmps else None}`: the normalised column list cannot tell x['b'] from x[['b']], so the projection that restores the dimension is dropped")
     ok = any(unparse(r.value) == "type(parent)(result, parent.operand('columns'))" for r in returns(pcp))
     ctx.ob("TYPE.projection-dimension.rewrap", pcp, "otherwise the parent projection is re-applied with its raw operand", ok)
+    from .C13 import no_operand_mutation
+
+    no_operand_mutation(ctx)
+    # the OR/AND factoring of stacked filters (shared with C36)
+    from .C36 import distributive_rules
+
+    distributive_rules(ctx)
 
 
 VARIANTS = [
